@@ -139,7 +139,7 @@ Definition run_simple_op0 (r : raw) : MX unit :=
           api opc (r <- acceptor_listen (s_fd s) a1 ;;
                    match r with
                    | Some (cfd, peer) => put_sock a2 (new_sock cfd 1 <| s_peer := peer |>) ;;;
-                                         tl <- is_tls a0 ;; (if tl then put_tls a2 tls0 else ret tt) ;;;      (* AcceptorTlsImpl::Accept *)
+                                         tl <- is_tls a0 ;; (if tl then put_tls a2 (tls0 <| t_server := true |>) else ret tt) ;;;      (* AcceptorTlsImpl::Accept *)
                                          ret [1; peer; cfd; a2]
                    | None => ret [0]
                    end)
